@@ -56,6 +56,8 @@ impl Table {
     pub fn unchars(&self, t: &str) -> Value {
         let mut out = vec![]; let mut rest = t;
         while !rest.is_empty() {
+            // (the decoded form of the escaped slash that `request_bytes` puts between the two characters of a param value: no character of its own)
+            if let Some(r) = rest.strip_prefix('/') { rest = r; continue }
             if rest.starts_with(self.a) { out.push("a"); rest = &rest[self.a.len()..] }
             else if rest.starts_with(self.b) { out.push("b"); rest = &rest[self.b.len()..] }
             else if rest.starts_with('-') { out.push("-"); rest = &rest[1..] }
@@ -139,7 +141,12 @@ pub fn build_app(apps: &[Value], idx: usize, t: &Table, early: i64, pbase: usize
 
 pub fn request_bytes(req: &Value, t: &Table) -> Vec<u8> {
     let mut p = String::new();
-    for sg in arr(&req["path"]) { p.push('/'); p.push_str(&t.chars(sg)) }
+    // a segment that only a `:param` can take (the instance value `bb` of the generators) is sometimes written with an escaped slash in the
+    // middle, `b%2Fb`: one segment to the router (and to every fang scope), `b/b` to the handler that reads the param
+    let esc = match (t.a.len() + arr(&req["path"]).len()) % 3 { 1 => Some("%2F"), 2 => Some("%2f"), _ => None };
+    for sg in arr(&req["path"]) { p.push('/');
+        let cs = arr(sg);
+        if let (Some(e), true) = (esc, cs.len() == 2 && s(&cs[0]) == "b" && s(&cs[1]) == "b") { p.push_str(t.b); p.push_str(e); p.push_str(t.b) } else { p.push_str(&t.chars(sg)) } }
     for _ in 0..i(&req["trailing"]) { p.push('/') }
     if p.is_empty() { p.push('/') }
     // some requests carry a query (with `?` and `/` inside it, which belong to the query): the path is what stands before the FIRST `?`
